@@ -116,6 +116,7 @@ func main() {
 		SecondSolverArgv: []string{"z3", "-in"},
 		InitPkgs:         map[string]bool{"strconv": true, "unicode/utf8": true, "math": true, "math/bits": true, "unicode": true, "sort": true, "bytes": true, "io": true},
 		LenientPkgs:      map[string]bool{"time": true, "errors": true, "github.com/invopop/validation": true, "github.com/invopop/validation/is": true, "github.com/google/uuid": true},
+		SelfTest:         !*noReplay && os.Getenv("GSX_NOSELFTEST") == "",
 		Trace:            *trace, SessionPaths: 150, LogDir: *logdir, Thorough: thorough,
 	}
 	eng.OpaqueAlways = map[string]string{
